@@ -117,6 +117,17 @@ def handle (op : String) (fs : List (String × String)) : String :=
       | some g => showOutline g
       | none => "err"
     | _, _ => "bad-case"
+  else if op == "glyf.ximage" then
+    -- extra oracle: segments of the specification outline (y axis flipped as x/image does)
+    match (getField fs "nc").bind String.toInt?, (getField fs "enc").bind fromHex with
+    | some nc, some e =>
+      match GlyfSpec.decodeSimple nc e with
+      | some g => "ok:" ++ ",".intercalate ((GlyfSpec.outlineSegs g).map fun
+          | .move x y => s!"M{x}/{-y}"
+          | .line x y => s!"L{x}/{-y}"
+          | .quad cx cy x y => s!"Q{cx}/{-cy}/{x}/{-y}")
+      | none => "err"
+    | _, _ => "bad-case"
   else if op == "glyf.locafacts" then
     match (getField fs "fmt").bind String.toNat?, (getField fs "loca").bind fromHex,
         (getField fs "glyflen").bind String.toNat?, (getField fs "n").bind String.toNat? with
